@@ -146,10 +146,10 @@ CONTRACTS = [
     ),
     Contract(
         target='xtce.definitions.XtcePacketDefinition.parse_ccsds_packet',
-        props=['C05', 'C01', 'C11'],
+        props=['C05', 'C01', 'C11', 'C04', 'C07', 'C08', 'C06'],
         params={'self': ('rec', 'XtcePacketDefinition'), 'packet': PKT_VALUES, 'root_container_name': ('opt', 'str')},
         returns=PKT_VALUES,
-        requires=['len(packet.raw_data) >= 6'],
+        requires=[('len(packet.raw_data) >= 6', ['__proof__']), (f"{_REF}[0] != 'error'", ['__native__'])],
         loops={
             ('', 0): LoopSpec(invariants={}, modifies=['packet.items', 'packet.raw_data.pos'],
                               retype={'valid_inheritors': ('list', 'str')},
@@ -175,7 +175,17 @@ CONTRACTS = [
             # C05 (PROVED): a normal return happens only at a concrete container none of whose children matches
             'ends_at_concrete_leaf': (f'result is packet and {NV} == 0 and not {CUR}.abstract', ['__proof__']),
         },
-        ensures={},
+        ensures={
+            # bounded native stand-in (reference semantics specs/refsem.py ref_parse):
+            # C05: exactly the parameters of the containers on the unique matching path, parents first, nested
+            # references expanded in place; value, raw value and class of each
+            'items': (f'result is packet and same_items(result, {_REF}[1])', ['__native__']),
+            'views': ('list(result.header.items()) == list(result.items())[:7] and '
+                      'list(result.user_data.items()) == list(result.items())[7:]', ['__native__']),
+            # C11: parsing never modifies the definition
+            'definition_unchanged': ('canon_definition(self) == old(canon_definition(self))', ['__native__']),
+        },
+        raises={'UnrecognizedPacketTypeError': (f"{_REF}[0] == 'unrecognized'", ['__native__'])},
         may_raise={'UnrecognizedPacketTypeError': ('True', ['__proof__']), 'ValueError': ('True', ['__proof__']),
                    'KeyError': ('True', ['__proof__']), 'ComparisonError': ('True', ['__proof__']),
                    'CalibrationError': ('True', ['__proof__']), 'UnicodeDecodeError': ('True', ['__proof__']),
@@ -184,26 +194,8 @@ CONTRACTS = [
             # C05 (PROVED): reported as unrecognized exactly at an abstract dead end or at an ambiguity, with the values
             # decoded so far
             'dead_end_or_ambiguous': (f'exc.partial_data is packet and (({NV} == 0 and {CUR}.abstract) or {NV} > 1)',
-                                      ['__proof__'])}},
-        modifies=['packet.items', 'packet.raw_data.pos'],
-    ),
-    Contract(
-        target='__native__.xtce.definitions.XtcePacketDefinition.parse_ccsds_packet',
-        props=['C05', 'C01', 'C11', 'C04', 'C07', 'C08', 'C06'],
-        params={}, native_only=PENDING,
-        requires=[f"{_REF}[0] != 'error'"],
-        ensures={
-            # C05: exactly the parameters of the containers on the unique matching path, parents first, nested
-            # references expanded in place; value, raw value and class of each
-            'items': f'result is packet and same_items(result, {_REF}[1])',
-            'views': 'list(result.header.items()) == list(result.items())[:7] and '
-                     'list(result.user_data.items()) == list(result.items())[7:]',
-            # C11: parsing never modifies the definition
-            'definition_unchanged': 'canon_definition(self) == old(canon_definition(self))',
-        },
-        raises={'UnrecognizedPacketTypeError': f"{_REF}[0] == 'unrecognized'"},
-        ensures_raise={'UnrecognizedPacketTypeError': {
-            'partial_data': f'exc.partial_data is packet and same_items(exc.partial_data, {_REF}[1])'}},
+                                      ['__proof__']),
+            'partial_data': (f'exc.partial_data is packet and same_items(exc.partial_data, {_REF}[1])', ['__native__'])}},
         modifies=['packet.items', 'packet.raw_data.pos'],
         native={'gen': _gen_parse, 'build': _build_parse},
     ),
